@@ -46,6 +46,78 @@ theorem allowed_iff (rx : Str → Str → Bool) (skip : Bool) (routes : List Rou
   unfold isAllowedRequest
   simp only [Bool.or_eq_true, preflight_iff, route_iff, or_assoc]
 
+/-! ### the rule LIST: every configured rule counts, nothing else about the list does
+
+  The decision depends on the list only through membership: writing a rule twice, reordering the rules, or
+  mixing `--skip-auth-regex` and `--skip-auth-route` entries changes nothing; and every rule the operator
+  wrote is in force — two rules that share a regular expression but differ in method or negation are two
+  rules (dropping either one can only remove exemptions, `route_subset_mono`, and does for the request
+  exhibited in `shared_regex_two_rules`). -/
+
+/-- lists with the same members decide alike (order and repetition are irrelevant) -/
+theorem route_congr_mem (rx : Str → Str → Bool) (rs rs' : List Route) (h : ∀ r, r ∈ rs ↔ r ∈ rs')
+    (method path : Str) : isAllowedRoute rx rs method path = isAllowedRoute rx rs' method path := by
+  rw [Bool.eq_iff_iff, route_iff, route_iff]
+  constructor
+  · rintro ⟨r, hr, hm⟩; exact ⟨r, (h r).1 hr, hm⟩
+  · rintro ⟨r, hr, hm⟩; exact ⟨r, (h r).2 hr, hm⟩
+
+theorem route_perm (rx : Str → Str → Bool) (rs rs' : List Route) (h : rs.Perm rs') (method path : Str) :
+    isAllowedRoute rx rs method path = isAllowedRoute rx rs' method path :=
+  route_congr_mem rx rs rs' (fun _ => h.mem_iff) method path
+
+/-- a rule written twice is the rule written once -/
+theorem route_dup (rx : Str → Str → Bool) (r : Route) (rs : List Route) (method path : Str) :
+    isAllowedRoute rx (r :: r :: rs) method path = isAllowedRoute rx (r :: rs) method path :=
+  route_congr_mem rx _ _ (fun x => by simp) method path
+
+/-- more rules exempt more: whatever a sub-list exempts, the list exempts -/
+theorem route_subset_mono (rx : Str → Str → Bool) (rs rs' : List Route) (h : ∀ r ∈ rs, r ∈ rs')
+    (method path : Str) (ha : isAllowedRoute rx rs method path = true) : isAllowedRoute rx rs' method path = true := by
+  rw [route_iff] at ha ⊢
+  obtain ⟨r, hr, hm⟩ := ha
+  exact ⟨r, h r hr, hm⟩
+
+/-- every configured rule is in force: a request its rule admits is exempt whatever else is configured -/
+theorem every_rule_counts (rx : Str → Str → Bool) (legacy rules : List Str) (rule : Str) (h : rule ∈ rules)
+    (method path : Str)
+    (hm : (parseRoute rule).method = [] ∨ method = (parseRoute rule).method)
+    (hp : rx (parseRoute rule).pattern path ≠ (parseRoute rule).negate) :
+    isAllowedRoute rx (buildRoutes legacy rules) method path = true := by
+  rw [route_iff]
+  refine ⟨parseRoute rule, ?_, hm, hp⟩
+  unfold buildRoutes
+  exact List.mem_append_right _ (List.mem_map_of_mem h)
+
+theorem every_legacy_regex_counts (rx : Str → Str → Bool) (legacy rules : List Str) (re : Str) (h : re ∈ legacy)
+    (method path : Str) (hp : rx re path = true) :
+    isAllowedRoute rx (buildRoutes legacy rules) method path = true := by
+  rw [route_iff]
+  refine ⟨legacyRoute re, ?_, Or.inl rfl, ?_⟩
+  · unfold buildRoutes
+    exact List.mem_append_left _ (List.mem_map_of_mem h)
+  · simp [legacyRoute, hp]
+
+/-- two rules sharing one regular expression are two rules: with `GET=^/r` and `POST=^/r` configured a POST is
+    exempt, and it is NOT once the second rule is dropped (any regex engine that matches `/r/1` against `^/r`) -/
+theorem shared_regex_two_rules (rx : Str → Str → Bool) (hrx : rx "^/r".toList "/r/1".toList = true) :
+    isAllowedRoute rx (buildRoutes [] ["GET=^/r".toList, "POST=^/r".toList]) "POST".toList "/r/1".toList = true ∧
+    isAllowedRoute rx (buildRoutes [] ["GET=^/r".toList]) "POST".toList "/r/1".toList = false := by
+  have e1 : parseRoute "GET=^/r".toList = { method := "GET".toList, negate := false, pattern := "^/r".toList } := by decide +kernel
+  have e2 : parseRoute "POST=^/r".toList = { method := "POST".toList, negate := false, pattern := "^/r".toList } := by decide +kernel
+  have hne : ("POST".toList == "GET".toList) = false := by decide +kernel
+  have hemp : ("GET".toList).isEmpty = false := by decide +kernel
+  have hemp2 : ("POST".toList).isEmpty = false := by decide +kernel
+  constructor
+  · unfold isAllowedRoute buildRoutes
+    rw [List.map_nil, List.nil_append, List.map_cons, List.map_cons, List.map_nil, e1, e2]
+    simp only [List.any_cons, List.any_nil, routeAllows, hne, hemp, hemp2, hrx, beq_self_eq_true, Bool.or_false,
+      Bool.false_or, Bool.true_and, Bool.false_and, Bool.or_true]
+    decide
+  · unfold isAllowedRoute buildRoutes
+    rw [List.map_nil, List.nil_append, List.map_cons, List.map_nil, e1]
+    simp only [List.any_cons, List.any_nil, routeAllows, hne, hemp, Bool.or_false, Bool.false_and]
+
 /-! ### rule grammar: negated iff the FIRST separator is `!=` -/
 
 theorem findSep_cons_other (c : Char) (cs : Str) (hc : c ≠ '=') (h : c ≠ '!' ∨ cs.head? ≠ some '=') :
